@@ -577,7 +577,10 @@ class Generator(object):
                 self.emit_assume(s.e, 'ASSUMED non-singular pivot (%s)' % s.label)
                 self.assumed_notes.add('non-singular pivot blocks: divisions in %s assumed well-defined' % getattr(s, 'fname', '?'))
                 return
-            oid = '%s/%s/%s.%d[%s]' % (self.prop, self.fn.key, s.kind, len(self.obls) + 1, self.cfgname)
+            if s.kind == 'check':
+                oid = '%s/%s/%s[%s]' % (self.prop, self.fn.key, s.label, self.cfgname)
+            else:
+                oid = '%s/%s/%s.%d[%s]' % (self.prop, self.fn.key, s.kind, len(self.obls) + 1, self.cfgname)
             self.emit_assert(s.e, oid, s.kind, s.label)
         elif isinstance(s, Assume):
             self.emit_assume(s.e, s.why)
